@@ -198,7 +198,7 @@ pub fn call_op(fe: &mut Frontend, op: &str, cls: &str, v: u64, rng: &mut Rng) ->
             };
             let flags = VhostUserConfigFlags::from_bits_truncate(rng.below(4) as u32);
             let buf: Vec<u8> = (0..size.min(0x1000) as usize).map(|i| i as u8 ^ 0x33).collect();
-            args = json!({"offset": limbs(off as u64), "size": limbs(size as u64), "flags": flags.bits(), "plen": buf.len(), "payload": hex(&buf)});
+            args = json!({"offset": limbs(off as u64), "size": limbs(size as u64), "flags": flags.bits(), "plen": buf.len(), "payload": hex(&buf), "pbytes": bytes_json(&buf)});
             let r = fe.get_config(off, size, flags, &buf);
             if let Ok((c, p)) = &r {
                 let (o, s, f) = (c.offset, c.size, c.flags);
@@ -216,7 +216,7 @@ pub fn call_op(fe: &mut Frontend, op: &str, cls: &str, v: u64, rng: &mut Rng) ->
             };
             let flags = VhostUserConfigFlags::from_bits_truncate(rng.below(4) as u32);
             let buf: Vec<u8> = (0..len).map(|i| i as u8 ^ 0x77).collect();
-            args = json!({"offset": limbs(off as u64), "size": limbs(len as u64), "flags": flags.bits(), "plen": len, "payload": hex(&buf)});
+            args = json!({"offset": limbs(off as u64), "size": limbs(len as u64), "flags": flags.bits(), "plen": len, "payload": hex(&buf), "pbytes": bytes_json(&buf)});
             res_of(&fe.set_config(off, flags, &buf))
         }
         "set_backend_request_fd" => {
@@ -244,7 +244,7 @@ pub fn call_op(fe: &mut Frontend, op: &str, cls: &str, v: u64, rng: &mut Rng) ->
             let m = VhostUserSharedMsg {
                 uuid: uuid::Uuid::from_bytes(u),
             };
-            args = json!({"uuid": hex(&u)});
+            args = json!({"uuid": hex(&u), "ubytes": bytes_json(&u)});
             let r = fe.get_shared_object(&m);
             if let Ok(f) = &r {
                 ret = json!({"file": fd_id(f.as_raw_fd())});
